@@ -65,7 +65,23 @@ var roSeed = [][]string{
 	{"SET", "k2", "a", "FIELD", "g", "2.5", "BOUNDS", "0", "0", "5", "5"},
 	{"SET", "k2", "j", "STRING", `{"a":{"b":1},"n":2}`},
 	{"SETCHAN", "ch1", "NEARBY", "k1", "FENCE", "POINT", "10", "20", "1000"},
+	{"SETHOOK", "hk1", "http://127.0.0.1:1/c18", "NEARBY", "k3", "FENCE", "POINT", "80", "170", "1"},
 }
+
+// what the seed holds: the targets an effective write is aimed at
+var (
+	roPairs    = [][2]string{{"k1", "a"}, {"k1", "b"}, {"k1", "c"}, {"k1", "d"}, {"k2", "a"}, {"k2", "j"}}
+	roLiveKeys = []string{"k1", "k2"}
+	roFreeKeys = []string{"k3", "nokey", "fresh"}
+	// objects holding a JSON document, with paths that exist in it
+	roDocs = [][3]string{{"k2", "j", "a.b"}, {"k2", "j", "n"}, {"k2", "j", "a"}, {"k1", "d", "properties.tag"}}
+)
+
+// dataWrites are the labels that change the dataset when sent directly; for
+// them the case carries an enabling prelude / targeted arguments, and the
+// direct twin measures whether the drawn command really was effective.
+var dataWrites = map[string]bool{"set": true, "fset": true, "del": true, "pdel": true, "drop": true, "flushdb": true, "rename": true, "renamenx": true,
+	"expire": true, "persist": true, "jset": true, "jdel": true, "setchan": true, "delchan": true, "pdelchan": true, "sethook": true, "delhook": true, "pdelhook": true}
 
 var (
 	roKeys   = []string{"k1", "k2", "k3", "nokey"}
@@ -81,8 +97,15 @@ func sf(rt *rapid.T, label string, xs ...string) string {
 // documented grammar aimed at the seeded objects so that they really change
 // something when allowed to run; everything else gets a mix of plausible and
 // arbitrary tokens.
-func roArgs(rt *rapid.T, label string) []string {
+func roArgs(rt *rapid.T, label string) (call []string, prelude [][]string) {
 	words := strings.Fields(label)
+	// targeted: aim at something the seed (or the prelude) makes exist, so
+	// that the command is effective when it is allowed to run
+	targeted := dataWrites[label] && rapid.IntRange(0, 4).Draw(rt, "targeted") > 0
+	pair := func() (string, string) {
+		p := rapid.SampledFrom(roPairs).Draw(rt, "pair")
+		return p[0], p[1]
+	}
 	k := func() string { return sf(rt, "key", roKeys...) }
 	id := func() string { return sf(rt, "id", roIDs...) }
 	fn := func() string { return sf(rt, "field", roFields...) }
@@ -116,26 +139,78 @@ func roArgs(rt *rapid.T, label string) []string {
 		a = append(a, obj()...)
 	case "fset":
 		a = []string{k(), id(), fn(), strconv.Itoa(rapid.IntRange(3, 99).Draw(rt, "fv"))}
+		if targeted {
+			a[0], a[1] = pair()
+		}
 	case "del":
 		a = []string{k(), id()}
+		if targeted {
+			a[0], a[1] = pair()
+		}
 	case "pdel":
 		a = []string{k(), sf(rt, "pat", "*", "a*", "?", "zz*")}
+		if targeted {
+			a = []string{sf(rt, "livekey", roLiveKeys...), sf(rt, "pat", "*", "a*", "?")}
+		}
 	case "drop", "type", "bounds":
 		a = []string{k()}
+		if targeted {
+			a[0] = sf(rt, "livekey", roLiveKeys...)
+		}
 	case "flushdb", "hooks", "chans":
 		if label != "flushdb" {
 			a = []string{"*"}
 		}
 	case "rename", "renamenx":
 		a = []string{k(), k()}
+		if targeted {
+			a[0] = sf(rt, "livekey", roLiveKeys...)
+			if label == "renamenx" || rapid.Bool().Draw(rt, "tofree") {
+				a[1] = sf(rt, "freekey", roFreeKeys...)
+			}
+		}
 	case "expire":
 		a = []string{k(), id(), gen.EX(rt)}
+		if targeted {
+			a[0], a[1] = pair()
+		}
 	case "persist", "ttl", "exists":
 		a = []string{k(), id()}
+		if targeted {
+			// PERSIST needs a deadline: k1/c has one, any other object gets one from the prelude
+			a[0], a[1] = pair()
+			if !(a[0] == "k1" && a[1] == "c") {
+				prelude = append(prelude, []string{"EXPIRE", a[0], a[1], gen.EX(rt)})
+			}
+		}
 	case "jset":
 		a = []string{k(), id(), sf(rt, "path", "a.b", "n", "properties.tag", "x"), sf(rt, "jval", "7", "hello", "true")}
+		if targeted {
+			d := rapid.SampledFrom(roDocs).Draw(rt, "doc")
+			a[0], a[1] = d[0], d[1]
+			if rapid.Bool().Draw(rt, "docpath") {
+				a[2] = d[2]
+			}
+			if d[1] == "d" && !strings.HasPrefix(a[2], "properties.") {
+				a[2] = "properties." + a[2]
+			}
+		}
 	case "jdel", "jget":
 		a = []string{k(), id(), sf(rt, "path", "a.b", "n", "properties.tag", "x")}
+		if targeted {
+			// JDEL needs a document that contains the path: either one of the
+			// seeded paths, or a path the prelude puts there first
+			d := rapid.SampledFrom(roDocs).Draw(rt, "doc")
+			a = []string{d[0], d[1], d[2]}
+			if rapid.Bool().Draw(rt, "freshpath") {
+				np := sf(rt, "newpath", "extra", "deep.er", "zz9")
+				if d[1] == "d" {
+					np = "properties." + np
+				}
+				prelude = append(prelude, []string{"JSET", d[0], d[1], np, sf(rt, "jval", "7", "hello", "true")})
+				a[2] = np
+			}
+		}
 	case "get":
 		a = []string{k(), id()}
 		if rapid.Bool().Draw(rt, "wf") {
@@ -150,9 +225,24 @@ func roArgs(rt *rapid.T, label string) []string {
 		}
 		a = append(a, "NEARBY", k(), "FENCE", "POINT", "1", "2", "500")
 	case "delchan", "delhook":
-		a = []string{sf(rt, "hook", "ch1", "ch2")}
+		a = []string{sf(rt, "hook", "ch1", "ch2", "hk1")}
+		if targeted {
+			a[0] = map[string]string{"delchan": "ch1", "delhook": "hk1"}[label]
+			if rapid.Bool().Draw(rt, "freshhook") {
+				// a second one made by the prelude
+				a[0] = map[string]string{"delchan": "ch9", "delhook": "hk9"}[label]
+				if label == "delchan" {
+					prelude = append(prelude, []string{"SETCHAN", "ch9", "WITHIN", "k2", "FENCE", "BOUNDS", "0", "0", "1", "1"})
+				} else {
+					prelude = append(prelude, []string{"SETHOOK", "hk9", "http://127.0.0.1:1/c18b", "WITHIN", "k3", "FENCE", "BOUNDS", "80", "170", "81", "171"})
+				}
+			}
+		}
 	case "pdelchan", "pdelhook":
-		a = []string{sf(rt, "hookpat", "*", "ch*")}
+		a = []string{sf(rt, "hookpat", "*", "ch*", "hk*")}
+		if targeted {
+			a[0] = sf(rt, "hookpat", "*", map[string]string{"pdelchan": "ch*", "pdelhook": "hk*"}[label])
+		}
 	case "scan", "search":
 		a = []string{k()}
 		if rapid.Bool().Draw(rt, "lim") {
@@ -207,7 +297,7 @@ func roArgs(rt *rapid.T, label string) []string {
 		}
 	}
 	// sometimes replace the grammar-directed arguments by arbitrary tokens
-	if rapid.IntRange(0, 5).Draw(rt, "arbitrary") == 0 {
+	if !targeted && rapid.IntRange(0, 5).Draw(rt, "arbitrary") == 0 {
 		pool := append(append(append([]string{"*", "0", "1", "-1", "POINT", "OBJECT", "STRING", "x", "LIMIT", "{}"}, roKeys...), roIDs...), roFields...)
 		a = rapid.SliceOfN(rapid.SampledFrom(pool), 0, 6).Draw(rt, "tokens")
 	}
@@ -224,15 +314,16 @@ func roArgs(rt *rapid.T, label string) []string {
 		}
 	}
 	full := append(name, a...)
-	if rapid.IntRange(0, 9).Draw(rt, "timeout") == 0 {
+	if !targeted && rapid.IntRange(0, 9).Draw(rt, "timeout") == 0 {
 		full = append([]string{"TIMEOUT", sf(rt, "tmo", "5", "0.5")}, full...)
 	}
-	return full
+	return full, prelude
 }
 
 type roCase struct {
-	Label   string   `json:"label"`
-	Call    []string `json:"call"`
+	Label   string     `json:"label"`
+	Prelude [][]string `json:"prelude,omitempty"` // sent directly before the snapshot: makes the call effective
+	Call    []string   `json:"call"`
 	Variant string   `json:"variant"` // evalro | evalrosha
 	Style   string   `json:"style"`   // call | pcall
 	Args    string   `json:"args"`    // argv | literal
